@@ -122,6 +122,13 @@ impl MT204 {
             }
         }
 
+        // Sequence B is mandatory: a message without it is rejected
+        if transactions.is_empty() {
+            return Err(crate::errors::ParseError::InvalidFormat {
+                message: "MT204: At least one transaction of sequence B (field 20) is required".to_string(),
+            });
+        }
+
         // Reject content left after the last field of the message
         verify_parser_complete(&parser)?;
 
